@@ -211,6 +211,9 @@ pub struct Divergence {
     pub expected: Option<Obs>,
     pub got: Option<Obs>,
     pub family: &'static str,
+    /// family by the kind of the diverging observations alone (family is "termination" for every divergence
+    /// in the termination phase)
+    pub base: &'static str,
     pub context: Vec<String>,
     pub seq: u64,
 }
@@ -263,6 +266,7 @@ pub fn compare_t(expected: &[Obs], real: &RealTrace, with_config: bool, uses_his
         // still running when the run was cut) - not the case here: the driver always settles. A longer
         // real trace (e.g. events processed after the end) is a divergence too.
         let mut family = classify(e, g, uses_history);
+        let base = family;
         if let Some(t) = term_filtered {
             if i >= t {
                 family = "termination";
@@ -275,7 +279,7 @@ pub fn compare_t(expected: &[Obs], real: &RealTrace, with_config: bool, uses_his
                 context.push(format!("  = {}", obs_short(x)));
             }
         }
-        return Some(Divergence { index: i, expected: e.cloned(), got: g.cloned(), family, context, seq: seqs.get(i).copied().unwrap_or(0) });
+        return Some(Divergence { index: i, expected: e.cloned(), got: g.cloned(), family, base, context, seq: seqs.get(i).copied().unwrap_or(0) });
     }
     None
 }
